@@ -44,10 +44,11 @@ def rand_str(rng):
     return out
 
 
-def rand_content(rng, depth=0, maxdepth=4):
+def rand_content(rng, depth=0, maxdepth=4, wf=False):
     """JSON-able content tree:
        ["n"] None | ["s", str] | ["o", str, truthy] other object | ["l", items] | ["d", items]
-       | ["b", header_lines, lines] TextBlock | ["c", lines] cpp_gen.Comment"""
+       | ["b", header_lines, lines] TextBlock | ["c", lines] cpp_gen.Comment
+       wf=True: blocks/comments hold break-free lines only (what the API without the lines setter produces)"""
     k = rng.random()
     if depth >= maxdepth:
         k = k * 0.62
@@ -65,13 +66,13 @@ def rand_content(rng, depth=0, maxdepth=4):
         return ['o', rand_str(rng), rng.random() < 0.8]
     if k < 0.56:
         hdr = [rand_line(rng) for _ in range(rng.choice([0, 0, 1, 2]))]
-        lines = [rand_line(rng) if rng.random() < 0.85 else rand_str(rng) for _ in range(rng.choice([0, 1, 2, 3]))]
+        lines = [rand_line(rng) if (wf or rng.random() < 0.85) else rand_str(rng) for _ in range(rng.choice([0, 1, 2, 3]))]
         return ['b', hdr, lines]
     if k < 0.62:
-        lines = [rand_line(rng) if rng.random() < 0.85 else rand_str(rng) for _ in range(rng.choice([0, 1, 2, 3]))]
+        lines = [rand_line(rng) if (wf or rng.random() < 0.85) else rand_str(rng) for _ in range(rng.choice([0, 1, 2, 3]))]
         return ['c', lines]
     n = rng.choice([0, 1, 1, 2, 2, 3, 4])
-    items = [rand_content(rng, depth + 1, maxdepth) for _ in range(n)]
+    items = [rand_content(rng, depth + 1, maxdepth, wf) for _ in range(n)]
     return ['l' if k < 0.9 else 'd', items]
 
 
